@@ -175,6 +175,12 @@ def Repr (s : Store) (w : Window) : Prop :=
 def alternation (hist : List (Nat × Val)) : List Op :=
   hist.flatMap (fun p => [.shift (some (p.1 : Int)), .set 0 p.2])
 
+/-- Slot `i` can only carry the value of round `k - i` if it was never pushed out of the window on
+    the way: the `j`-th most recent shift (`j < i`) must have had depth `> i - j`.
+    `rev` = the rounds `(depth, value)`, most recent first. -/
+def Travels (rev : List (Nat × Val)) (i : Nat) : Prop :=
+  ∀ j, j < i → ∃ p, rev[j]? = some p ∧ i - j < p.1
+
 /-- the Newton pattern: `shift(max_index = m)` then additive write at index 0 -/
 def alternationAdd (m : Nat) (incs : List Val) : List Op :=
   incs.flatMap (fun d => [.shift (some (m : Int)), .add 0 d])
@@ -192,22 +198,19 @@ abbrev Data := List (Key × Store)
 def dget (d : Data) (k : Key) : Option Store := alookup d k
 def dput (d : Data) (k : Key) (s : Store) : Data := ainsert d k s
 
+/-- one index argument of `_validate_indices`: absent, valid (non-negative) or `ValueError` (`none`) -/
+def idxPart (loc : Loc) : Option Int → Option (List (Loc × Nat))
+  | none => some []
+  | some i => if i ≥ 0 then some [(loc, i.toNat)] else none
+
 /-- `_validate_indices`; `none` = `ValueError`. Iterate entry first, then time step entry. -/
 def validateIndices (ts it : Option Int) : Option (List (Loc × Nat)) :=
-  match ts, it with
-  | none, none => none
-  | _, _ =>
-    let itPart : Option (List (Loc × Nat)) :=
-      match it with
-      | none => some []
-      | some i => if i ≥ 0 then some [(Loc.iterate, i.toNat)] else none
-    let tsPart : Option (List (Loc × Nat)) :=
-      match ts with
-      | none => some []
-      | some t => if t ≥ 0 then some [(Loc.timeStep, t.toNat)] else none
-    match itPart, tsPart with
+  if ts.isNone && it.isNone then none
+  else
+    match idxPart .iterate it, idxPart .timeStep ts with
     | some a, some b => some (a ++ b)
-    | _, _ => none
+    | some _, none => none
+    | none, _ => none
 
 /-- loop body of `set_solution_values` over the validated (location, index) pairs.
     `data[loc][name] = {}` is created before the additive check, so it stays after the error. -/
